@@ -74,6 +74,13 @@ theorem connect_all {α : Type} (b : BufferedBus α) (c : Int)
     cases b; simp only at hb; subst hb; simp
   · simp only [h, if_false, Bool.false_eq_true, connectLoop_all _ _ _ _ hl hs]
 
+theorem inside_nil_of_isEmpty {α : Type} (b : BufferedBus α) (h : b.isEmpty = true) : b.inside = [] := by
+  simp only [BufferedBus.isEmpty, Bool.and_eq_true, beq_iff_eq, List.length_eq_zero_iff] at h
+  simp only [BufferedBus.inside, h.1, h.2, List.map_nil, List.append_nil]
+
+theorem get_lt {α : Type} (l : List α) (i : Nat) (h : i < l.length) : ∃ a, l[i]? = some a :=
+  ⟨l[i], List.getElem?_eq_getElem h⟩
+
 /-! ### program counters -/
 
 /-- the pc of instruction number `k` -/
